@@ -103,6 +103,96 @@ def unbounded_clause(ck, tier, mexe, facts, broken):
             'samples': [cases[0], cases[len(cases) // 2][:300]]}
 
 
+def gen_backend(rng, facts):
+    """backend level: bounded blocking / dropping queues of 256 or 1024 bytes, 1-4 threads logging statements of up
+    to the full capacity (so that producers park and dropping queues refuse), backend polls in between (with parked
+    producers resumed at yield points inside a pass), then a drain phase in which every parked producer is resumed
+    after the backend has polled"""
+    from be_common import Case, HDR_LOG
+    soft = rng.choice([1, 2, 4]); hard = rng.choice([h for h in (2, 4, 8) if h >= soft])
+    c = Case(dropping=rng.choice([0, 0, 1]), capk=rng.choice([8, 8, 10]), tinit=rng.choice([2, 4]), soft=soft, hard=hard,
+             grace=rng.choice([0, 0, 1000]), facts=facts)
+    C = 1 << c.capk
+    nt = rng.randint(1, 4)
+    for _ in range(rng.randint(4, 40)):
+        r = rng.random(); t = rng.randrange(nt)
+        if r < 0.55:
+            pad = rng.choice([0, 3, C // 4, C // 2 - HDR_LOG, C - HDR_LOG, C - HDR_LOG - 1, C - 2 * HDR_LOG, rng.randint(0, C - HDR_LOG)])
+            c.log(t, pad=max(0, min(pad, C - HDR_LOG)))
+        elif r < 0.7: c.resume(t)
+        elif r < 0.78: c.tick(rng.choice([1, 1000, 1001, 3000]))
+        else:
+            inj = []
+            if rng.random() < 0.4:
+                inj.append((rng.choice([3, 4, 5, 6, 8]), rng.choice([0, 1]), [('resume', rng.randrange(nt))]))
+            c.poll(inj)
+    for _ in range(6):
+        c.tick(2000)
+        for _ in range(12): c.poll()
+        for t in range(nt): c.resume(t)
+    c.ctx()
+    return c
+
+
+def backend_monitor(case, obs):
+    """C09 on the implementation's observations, independent of the Coq model. A thread's queue is certainly empty
+    when every statement of that thread accepted so far has already been written to the sink (written implies
+    consumed). At such a moment (1) a retry of a parked producer must succeed, (2) a dropping queue must accept,
+    (3) a fresh blocking call must not park - for any statement that fits the capacity (all generated ones do).
+    And at the end of the drain phase nobody is still parked."""
+    from be_common import Track
+    tr = Track(case, obs)
+    if not tr.ok: return 'no observations'
+    wpos = {}
+    for pos, k, i, lvl in tr.writes: wpos.setdefault(i, pos)
+    by_thread = {}
+    for i, d in sorted(tr.stmts.items()):
+        by_thread.setdefault(d['thread'], []).append((i, d))
+    for t, lst in by_thread.items():
+        for k, (i, d) in enumerate(lst):
+            if d['outcome'] in ('ignored', 'filtered'): continue
+            # the moment the call (or its last retry) was decided: its return position, or for a still parked one the end
+            decided = d['ret'] if d['ret'] is not None else None
+            earlier = [(j, e) for j, e in lst[:k] if e['outcome'] == 'accepted']
+            def drained_at(p):
+                return all(wpos.get(j, 1 << 60) < p for j, e in earlier)
+            if d['outcome'] == 'dropped' and decided is not None and drained_at(d['pos']):
+                return ('statement %d (thread %d, %d bytes, capacity %d) was refused by the dropping queue although the queue was empty: every earlier accepted '
+                        'statement of the thread had already been written' % (i, t, d['size'], 1 << case.capk))
+            if d['outcome'] == 'parked':
+                return ('statement %d (thread %d, %d bytes, capacity %d) is still blocked at the end: the backend polled 72 times and the producer retried 6 times '
+                        'after the last of them' % (i, t, d['size'], 1 << case.capk))
+    # a retry that comes back "still parked" although the thread's queue was empty at that moment
+    pending = {}
+    from be_common import align
+    for c, code, pos in align(case, obs):
+        if c[0] == 'log':
+            t, i = c[1], c[2]
+            if i in tr.stmts and code == 2 and tr.stmts[i]['outcome'] != 'ignored': pending[t] = i
+            if i in tr.stmts and code == 2:
+                d = tr.stmts[i]
+                if not c[7]:       # not a stalled call: it parked because the queue refused it
+                    earlier = [j for j, e in tr.stmts.items() if e['thread'] == t and j < i and e['outcome'] == 'accepted']
+                    if all(wpos.get(j, 1 << 60) < pos for j in earlier) and case.dropping == 0:
+                        return ('statement %d (thread %d, %d bytes, capacity %d) parked although the thread\'s queue was empty: every earlier accepted statement of the thread had already been written'
+                                % (i, t, d['size'], 1 << case.capk))
+        elif c[0] == 'resume' and c[1] in pending:
+            t = c[1]; i = pending[t]
+            if code != 2: del pending[t]
+            else:
+                d = tr.stmts[i]
+                earlier = [j for j, e in tr.stmts.items() if e['thread'] == t and j < i and e['outcome'] == 'accepted']
+                if all(wpos.get(j, 1 << 60) < pos for j in earlier) and case.dropping == 0:
+                    return ('statement %d (thread %d, %d bytes, capacity %d): the retry came back blocked although the thread\'s queue was empty (every earlier accepted statement already written)'
+                            % (i, t, d['size'], 1 << case.capk))
+    return None
+
+
+def backend_phase(ck, tier):
+    from be_check import be_driver_phase
+    return be_driver_phase(ck, tier, gen_backend, backend_monitor, 400, 20000, 'M-BE vs backend driver (blocked / refused producers on bounded queues)')
+
+
 def run(tier):
     ck = Check(PID, tier)
     broken = standard_proof_phase(ck, 'Properties_C09')
@@ -133,6 +223,7 @@ def run(tier):
         else:
             ck.violation('no-failing-input-found', '; '.join(broken))
     uq_cov = unbounded_clause(ck, tier, mexe, facts, broken)
+    be_cov = backend_phase(ck, tier)
     # non-trivial: the history reaches a quiescent drained state with unpublished < batch and then asks for > C - unpublished
     def nt(case):
         hdr, ops = B.parse(case); C = 1 << int(hdr[2]); ref = B.Ref(C, int(hdr[3]), on_drain=False); hit = False
@@ -151,7 +242,7 @@ def run(tier):
                      rule='op sequences on the real queue (3 integer widths); half aimed at the D3 shape: small write, drain, commit_read leaving unpublished in [1,batch), then a write of C-unpublished, C-unpublished+1 or C; non-trivial = at some write the queue is empty, the consumer quiescent, the pinned tree would not have published (unpublished < batch) and the record needs more than C-unpublished bytes; distinct by case text',
                      evaluations=len(cases) + uq_cov.get('cases', 0), distinct_nontrivial=ntc + uq_cov.get('distinct_nontrivial', 0),
                      traces=len(cases) - len(dis) - len(mon) + uq_cov.get('traces', 0),
-                     extra_cov={'disagreements': len(dis), 'monitor_failures': len(mon), 'unbounded_clause': uq_cov})
+                     extra_cov={'disagreements': len(dis), 'monitor_failures': len(mon), 'unbounded_clause': uq_cov, 'backend_level': be_cov})
 
 
 def replay(path):
